@@ -256,6 +256,15 @@ def gen_cases(run):
                 fams += [("zip", op) for op in mutate.ZIP_OPS] * 2
             if kind in corpus.TEXT_KINDS:
                 fams += [("text", op) for op in mutate.TEXT_OPS] * 2
+            if kind in ("ppt", "xls", "doc", "rtf", "pdf"):
+                # formats that scan embedded pictures themselves: a few damaged-picture variants of every base, whatever the draw below gives
+                for k in range(run.n(4, 12)):
+                    cid += 1
+                    yield {"id": cid, "kind": kind, "mode": "direct" if k % 2 == 0 else rng.choice(modes_extra), "native": native,
+                           "recipe": {"src": src, "op": "picture_half_written", "family": "byte", "mseed": k, "other": None}}
+                    cid += 1
+                    yield {"id": cid, "kind": kind, "mode": "direct", "native": native,
+                           "recipe": {"src": src, "op": "jpeg_segment_length", "family": "byte", "mseed": k, "enum": k, "other": None}}
             for _ in range(per_base):
                 fam, op = rng.choice(fams)
                 other = rng.choice(all_src)[1] if op == "splice" else None
